@@ -150,3 +150,11 @@
 (lemma joinSemi-snoc :induction k
   (forall ((p Seq_Str) (x Str) (k Int))
     (! (=> (<= k (Seq_Str.len p)) (= (joinSemi (Seq_Str.snoc p x) k) (joinSemi p k))) :pattern ((joinSemi (Seq_Str.snoc p x) k)))))
+(lemma ndots-split :induction c :lower b
+  (forall ((s Str) (a Int) (b Int) (c Int))
+    (! (=> (and (<= a b) (<= b c)) (= (ndots s a c) (+ (ndots s a b) (ndots s b c))))
+       :pattern ((ndots s a b) (ndots s b c)))))
+(lemma allNumBytes-join
+  (forall ((s Str) (a Int) (b Int) (c Int))
+    (! (=> (and (allNumBytes s a b) (allNumBytes s b c)) (allNumBytes s a c))
+       :pattern ((allNumBytes s a b) (allNumBytes s b c)))))
